@@ -132,17 +132,18 @@ Definition write_node (o : opts) (root : bytes) (n : anode) : step :=
 Inductive outcome := Done | DecodeError | WriteError (e : errno) | OutOfFuel.
 
 (* UnTar: for { c, err := dec.Next(); ...; err = fs.CreateX(n); if err != nil { return err } } *)
-Fixpoint untar_loop (fuel : nat) (pol : policy) (o : opts) (root dir : bytes) (inp : list elem) (st : wstate)
+Fixpoint untar_loop (fuel : nat) (pol : policy) (o : opts) (root : bytes) (started : bool) (dir : bytes)
+  (inp : list elem) (st : wstate)
   : wstate * outcome :=
   match fuel with
   | O => (st, OutOfFuel)
   | S f =>
-      match archive_next pol dir inp with
+      match archive_next pol started dir inp with
       | NEnd => (st, Done)
       | NErr => (st, DecodeError)
       | NNode n _ dir' rest =>
           match write_node o root n st with
-          | (st', None) => untar_loop f pol o root dir' rest st'
+          | (st', None) => untar_loop f pol o root true dir' rest st'
           | (st', Some e) => (st', WriteError e)
           end
       end
@@ -151,4 +152,4 @@ Fixpoint untar_loop (fuel : nat) (pol : policy) (o : opts) (root dir : bytes) (i
 (* every call of Next consumes at least one element, so this fuel is never used up
    (Proofs/UntarProofs.v, untar_fuel) *)
 Definition untar (pol : policy) (o : opts) (root : bytes) (inp : list elem) (fs : node) : wstate * outcome :=
-  untar_loop (S (length inp)) pol o root dir0 inp (mkW fs []).
+  untar_loop (S (length inp)) pol o root false dir0 inp (mkW fs []).
